@@ -338,7 +338,7 @@ def correction(polarIMTrans, angles, radial, method):
         # storage for the radial correction factors
         radcorr = []
         radcorr.append(1)  # first slice nothing to compare with
-        previous = polarIMTrans[0]
+        previous = polarIMTrans[0].copy()  # (updated in place below)
 
         for ang, aslice in zip(angles[1:], polarIMTrans[1:]):
             profile = aslice
